@@ -1618,7 +1618,10 @@ def _o_fastq(spec):
                     return v
             except Exception as e:  # noqa: BLE001
                 return v + [(f"C12/fastq/edit-raises/{type(e).__name__}", f"del {h!r} (chars_per_line {cpl}): {e}")]
-        view = canon(f.items())
+        try:
+            view = canon(f.items())
+        except Exception as e:  # noqa: BLE001  (an entry the file object itself wrote must be readable)
+            return v + [(f"C12/fastq/entry-unreadable/{type(e).__name__}", f"after {step[:3]} (offset {off}): {e}")]
         if not f.lines:
             continue
         t1 = io.StringIO(); f.write(t1)
